@@ -19,6 +19,7 @@ EXPLANATION = (
     "when the joint prior covariance of (x,q) is PSD (parametrised as a joint Cholesky factor); permuting the training "
     "points leaves the outputs unchanged; y_err=e and y_cov=diag(e^2) agree; list inputs and 1-D/2-D query shapes give "
     "the same values."
+    ' Both kernel entry points (build_covariance, __call__) of every shipped kernel must be the same covariance function. Call-sequence unit: predictions after score evaluations at other hyper-parameters and after set_hyperparameters equal those of a freshly built regressor.'
 )
 BOUNDS = {"quick": "n<=2 training points (abstract kernel n<=3), <=2 query points, d<=2",
           "thorough": "abstract kernel n<=3 with 2 query points, d<=2; real kernels n=2; training-order invariance n=2 only (explicit Cholesky for n=3 is undecided by nlsat within 120 s)"}
@@ -355,3 +356,43 @@ def one_covariance_function_behind_both_entry_points(h, key, n, d):
     h.eq("build_covariance == __call__(x, x) off the diagonal", np.array([B[i, j] for i, j in off], dtype=B.dtype), np.array([C[i, j] for i, j in off], dtype=C.dtype))
     Q = h.real("q", (1, d))
     h.eq("K(q, x) == K(x, q)^T", K(Q, X, th), np.asarray(K(X, Q, th)).T)
+
+
+@unit("C02", quick=[dict(n=1, d=1), dict(n=2, d=1)], thorough=[dict(n=2, d=2)], cost=4, timeout_ms=60000)
+def predictions_do_not_depend_on_earlier_calls(h, n, d):
+    """a call sequence on one regressor: predict, evaluate the model-selection scores (value and value-and-gradient
+    variants) at *other* hyper-parameters, predict again, change the hyper-parameters with set_hyperparameters, predict.
+    The predictions must equal those of a regressor freshly built with the hyper-parameters currently set: what the
+    closed form depends on is the data and the current hyper-parameter vector, not the history of calls"""
+    import inference.gp.regression as rg
+    from symnp.core import ozeros
+    cv, mn = gc.patch_cov(h)
+    h.patch(rg, solve_triangular=stubs.solve_triangular, zeros=ozeros, cholesky=stubs.cholesky)
+    h.covers(rg.GpRegressor.set_hyperparameters, rg.GpRegressor.__call__, rg.GpRegressor.build_posterior, rg.GpRegressor.marginal_likelihood,
+             rg.GpRegressor.loo_likelihood, rg.GpRegressor.marginal_likelihood_gradient, rg.GpRegressor.loo_likelihood_gradient)
+    x = h.real("x", (n, d))
+    y = h.real("y", n)
+    e = h.real("yerr", n, pos=True)
+    th1, th2, th3 = h.real("th1", d + 2), h.real("th2", d + 2), h.real("th3", d + 2)
+    q = h.real("q", (1, d))
+    dt = object if h.sym else float
+
+    def mk(th):
+        K = cv.SquaredExponential(hyperpar_bounds=[(-5.0, 5.0)] * (d + 1))
+        M = mn.ConstantMean(hyperpar_bounds=[(-5.0, 5.0)])
+        return rg.GpRegressor(x, y, y_err=e, hyperpars=th, kernel=K, mean=M)
+    h.allow(np.linalg.LinAlgError)
+    a, ref1 = mk(th1), mk(th1)
+
+    def compare(tag, ref):
+        for name, fa, fb in (("__call__", a(q), ref(q)), ("build_posterior", a.build_posterior(q), ref.build_posterior(q))):
+            for k, (u, v) in enumerate(zip(fa, fb)):
+                h.eq(f"{tag}: {name}[{k}] == fresh regressor with the current hyper-parameters", np.asarray(u), np.asarray(v))
+        h.eq(f"{tag}: mean-only call", np.asarray(a.mean(q)) if hasattr(a, "mean") and callable(a.mean) and not isinstance(a.mean, mn.MeanFunction) else np.asarray(a(q)[0]), np.asarray(ref(q)[0]))
+    a(q)
+    for k, f in enumerate((a.marginal_likelihood, a.loo_likelihood, a.marginal_likelihood_gradient, a.loo_likelihood_gradient)):
+        f(np.array(th2, dtype=dt))
+        compare(f"after {f.__name__}(other)", ref1)
+    a.set_hyperparameters(np.array(th3, dtype=dt))
+    a.loo_likelihood(np.array(th2, dtype=dt))
+    compare("after set_hyperparameters and a score call", mk(th3))
